@@ -212,6 +212,21 @@ impl<'a> Gen<'a> {
             let k = *self.rng.pick(&vcore::ov::ALL_KINDS);
             if !admissible.contains(&k) {
                 self.tag("wrong-kind");
+                // for a target read from ONE string: sometimes a list of would-be items, good and bad ones mixed
+                // (an implementation that starts accepting lists must still account for every report it makes)
+                if k == VK::Sequence && admissible == [VK::String] && self.rng.chance(1, 2) {
+                    let n = 2 + self.rng.below(4);
+                    let items: Vec<Ov> = (0..n)
+                        .map(|_| match self.rng.below(5) {
+                            0 => Ov::Bool(true),
+                            1 => Ov::Int(7),
+                            2 => Ov::str("x,y"),
+                            3 => Ov::str("not-a-number"),
+                            _ => Ov::str("1"),
+                        })
+                        .collect();
+                    return Ov::Seq(items);
+                }
                 return self.of_kind(k, depth + 1);
             }
         }
